@@ -32,6 +32,9 @@ theorem C20_callees : Gen.blankCallees.all (fun c => knownCallees.contains c) = 
 
 theorem C20_cap_cmp : Gen.blankMaxCmp = ">" ∧ Gen.blankSetCmp = "!=" := by decide +kernel
 
+/-- `can_increase_nl()` tests its conditions in the order the model `canIncrease` transliterates -/
+theorem C20_caninc_shape : Gen.canIncReturns = expectedCanIncReturns := by decide +kernel
+
 /-! ### the helpers -/
 
 theorem blankHelper_cases (cmp : String) (opt n : Nat) : blankHelper cmp opt n = opt ∨ blankHelper cmp opt n = n := by
